@@ -188,7 +188,22 @@ impl System for LongSys {
 				}
 				Err(mut f) => {
 					let jump = if n.g.jumped { "/after-scale-jump" } else { "" };
-					f.sig = format!("{}/{}{jump}", f.sig, tclass(n.g.t));
+					// by how much the allowance is exceeded (a drift that creeps past the allowance is
+					// a different thing from a value that is plainly wrong)
+					let excess = match (&out, &exp) {
+						(Out::V(v), Expect::Q(q)) if q.r > 0.0 => {
+							let k = (*v as f64 - q.v).abs() / q.r;
+							if k <= 8.0 {
+								"/within-8-allowances"
+							} else if k <= 512.0 {
+								"/within-512-allowances"
+							} else {
+								"/beyond-512-allowances"
+							}
+						}
+						_ => "",
+					};
+					f.sig = format!("{}/{}{jump}{excess}", f.sig, tclass(n.g.t));
 					f.detail = format!("after {} values (inner step {inner} of {a:?}): {}", n.g.t, f.detail);
 					Err(f)
 				}
